@@ -18,7 +18,7 @@ Adiabatic State Preparation (ASP) inspired ansatz as described in https://arxiv.
 import numpy as np
 
 from .ansatz import Ansatz
-from .ansatz_utils import get_exponentiated_qubit_operator_circuit
+from .ansatz_utils import get_exponentiated_qubit_operator_circuit, exp_pauliword_to_gates, recursive_trotter_suzuki_decomposition
 from tangelo.linq import Circuit
 from tangelo.toolboxes.operators import FermionOperator, QubitOperator
 from tangelo.toolboxes.qubit_mappings.mapping_transform import get_qubit_number, fermion_to_qubit_mapping
@@ -207,6 +207,12 @@ class VSQS(Ansatz):
         return get_reference_circuit(n_spinorbitals=self.n_spinorbitals, n_electrons=self.n_electrons, mapping=self.mapping,
                                      up_then_down=self.up_then_down, spin=self.spin)
 
+    def _variational_evolution(self, qu_op_list, time):
+        """Trotterized time-evolution circuit with one variational gate for every term of qu_op_list, also the ones
+        whose angle is zero, as update_var_params relies on their number and position."""
+        timed_pauli_words = recursive_trotter_suzuki_decomposition(qu_op_list, self.trotter_order, time)
+        return Circuit([gate for pauli_word, coef in timed_pauli_words for gate in exp_pauliword_to_gates(pauli_word, coef, variational=True)])
+
     def build_circuit(self, var_params=None):
         """Build the VSQS circuit by successive first- or second-order trotterizations of h_init, h_final and possibly h_nav"""
         reference_state_circuit = self.prepare_reference_state() if self.reference_state is None else self.reference_state
@@ -214,13 +220,10 @@ class VSQS(Ansatz):
 
         vsqs_circuit = get_exponentiated_qubit_operator_circuit(self.h_init, time=self.dt, trotter_order=self.trotter_order, pauli_order=self.h_init_list)
         for i in range(self.intervals-1):
-            vsqs_circuit += get_exponentiated_qubit_operator_circuit(self.h_init, time=self.var_params[i * self.stride] * self.dt, variational=True,
-                                                                     trotter_order=self.trotter_order, pauli_order=self.h_init_list)
-            vsqs_circuit += get_exponentiated_qubit_operator_circuit(self.h_final, time=self.var_params[i * self.stride + 1] * self.dt, variational=True,
-                                                                     trotter_order=self.trotter_order, pauli_order=self.h_final_list)
+            vsqs_circuit += self._variational_evolution(self.h_init_list, self.var_params[i * self.stride] * self.dt)
+            vsqs_circuit += self._variational_evolution(self.h_final_list, self.var_params[i * self.stride + 1] * self.dt)
             if self.h_nav is not None:
-                vsqs_circuit += get_exponentiated_qubit_operator_circuit(self.h_nav, time=self.var_params[i * self.stride + 2] * self.dt, variational=True,
-                                                                         trotter_order=self.trotter_order, pauli_order=self.h_nav_list)
+                vsqs_circuit += self._variational_evolution(self.h_nav_list, self.var_params[i * self.stride + 2] * self.dt)
         vsqs_circuit += get_exponentiated_qubit_operator_circuit(self.h_final, time=self.dt, trotter_order=self.trotter_order, pauli_order=self.h_final_list)
 
         self.circuit = reference_state_circuit + vsqs_circuit if reference_state_circuit.size != 0 else vsqs_circuit
